@@ -256,3 +256,22 @@ CHECKS["C12"] = {
         {"variant": "tsan", "engine": "stress", "procs": 2, "rounds_quick": 1000, "rounds_thorough": 20000},
     ],
 }
+
+CHECKS["C15"] = {
+    "src": "C15.cpp",
+    "level": "exploration",
+    "rule": "histories of 2-3 threads x 3-6 operations with unique written values on atomic_guarded<Cell> (load, store, =, exchange, "
+            "compare_exchange with expectations drawn from values seen so far), guarded / guarded_opt / ordered_guarded (load, store, =) and "
+            "deferred_guarded (load against modify_detach writers; queued writes stay open to the end of the history), plus a final load; each "
+            "history is checked by a WGL search against a sequential register; every loaded value is checked for tearing (multi-word payload "
+            "copied with scheduling points between words); seq mode: single-threaded sequences with exact register semantics. Non-trivial: "
+            "calls of different threads overlapped in logical time; distinct = (operations, results, schedule signature).",
+    "assumptions": ["linearizability is judged with the acq_rel logical clock and not in TSan builds", "search budget 1e5 nodes per history; overruns are counted as inconclusive"],
+    "runs": [
+        {"variant": "asan", "engine": "off", "mode": "seq", "procs": 1, "rounds_quick": 5000, "rounds_thorough": 50000},
+        {"variant": "plain", "engine": "serial", "procs": 6, "rounds_quick": 8000, "rounds_thorough": 150000},
+        {"variant": "plain", "engine": "stress", "procs": 4, "rounds_quick": 4000, "rounds_thorough": 80000},
+        {"variant": "asan", "engine": "stress", "procs": 2, "rounds_quick": 1500, "rounds_thorough": 30000},
+        {"variant": "tsan", "engine": "stress", "procs": 2, "rounds_quick": 1000, "rounds_thorough": 20000},
+    ],
+}
